@@ -46,6 +46,8 @@ def units(tier):
         us += func_units(f"{M}.{q}", tier)
     us += func_units(f"{M}._do_attributes", tier, only=lambda inst: inst["identity"].startswith("unknown"))
     us.append(ground_unit("C14.frame_scan", frame_scan))
+    from pyvc import clientrun
+    us.append(clientrun.unit("assignments_leave_message_unchanged", clientrun.lemma_assignments))
     return us
 
 
